@@ -1,7 +1,7 @@
 """C11 — variable observers see each committed change once, with the final value (four structural clauses)."""
 from analysis.facts import callee, callee_short, is_dyn_call
 from analysis.cfg import cfg
-from analysis.defuse import Tracer, fields_of
+from analysis.defuse import Tracer, fields_of, full_lineage
 from analysis.effects import Effects
 from analysis.guards import GuardFlow
 from analysis.panics import sites, guard_dominated
@@ -169,8 +169,9 @@ def run(chk, prog):
         _lt11 = Tracer(prog, transparent=lambda cs: True, use_summaries=False)
         merged = any(callee_short(t).rsplit('::', 1)[-1] in ('insert', 'extend', 'extend_from_slice', 'union', 'append')
                      and len(t['args']) > 1
-                     and 'field:VariablesState::changed_variables_for_batch_obs' in tr.prov(g_, t['args'][0])
-                     and ('field:StatePatch::changed_variables' in _lt11.prov(g_, t['args'][1]))
+                     and 'field:VariablesState::changed_variables_for_batch_obs' in (
+                         tr.prov(g_, t['args'][0]) | full_lineage(prog, g_, t['args'][0], _lt=_lt11))
+                     and ('field:StatePatch::changed_variables' in full_lineage(prog, g_, t['args'][1], _lt=_lt11))
                      for g_ in prog.with_closures(ap) for bb, t in g_.calls())
         chk.decide(RC, chk.key(RC, 'apply_patch-merges'), merged,
                    'apply_patch inserts patch.changed_variables into the batch set',
